@@ -4,6 +4,8 @@ package stun_test
 
 import (
 	"bufio"
+	"crypto/hmac"
+	"crypto/sha1"
 	"encoding/json"
 	"math/rand"
 	"os"
@@ -167,6 +169,41 @@ func emitMIShape(tw *traceWriter, r *rand.Rand, s authShape) {
 		}
 	}
 	tw.emit(map[string]interface{}{"k": "michk", "raw": ints(raw), "dec": b01(ok), "keys": keys, "shape": s})
+	if s.Mac != "ok" || s.Tail == "fp" {
+		return
+	}
+	// near misses: the MAC an implementation would produce/accept if it covered a slightly different span or
+	// rewrote the length differently (RFC 5389 s15.4 names exactly one). All of them must be rejected
+	// unless they coincide with the right one.
+	macAt := len(pre)
+	for variant := 0; variant < 4; variant++ {
+		v := append([]byte(nil), raw...)
+		text := append([]byte(nil), v[:macAt]...)
+		switch variant {
+		case 0: // header length left as in the final message
+		case 1: // header length = bytes before MESSAGE-INTEGRITY (attribute itself not counted)
+			n := macAt - 20
+			text[2], text[3] = byte(n>>8), byte(n)
+		case 2: // length rewritten correctly but the attribute header included in the text
+			n := macAt + 24 - 20
+			text[2], text[3] = byte(n>>8), byte(n)
+			text = append(text, v[macAt:macAt+4]...)
+		case 3: // the whole message with the MAC field zeroed
+			text = append([]byte(nil), v...)
+			for i := macAt + 4; i < macAt+24; i++ {
+				text[i] = 0
+			}
+		}
+		h := hmac.New(sha1.New, key)
+		h.Write(text)
+		copy(v[macAt+4:macAt+24], h.Sum(nil))
+		dm2, ok2 := decodeCopy(v, 24)
+		keys2 := [][]interface{}{}
+		if ok2 {
+			keys2 = append(keys2, []interface{}{keyRec, checkVerdict(stun.MessageIntegrity(key), dm2)})
+		}
+		tw.emit(map[string]interface{}{"k": "michk", "raw": ints(v), "dec": b01(ok2), "keys": keys2, "nearmiss": variant})
+	}
 }
 
 func signedMessage(r *rand.Rand, withFP bool) ([]byte, []byte) {
